@@ -27,9 +27,31 @@ def run(ctx):
 
 
 def _field_writes(F, b, adt, fields):
+    """per field: [(body, bb, how, line)] of assignments; a whole-value replacement `*member = MemberState { .. }` through a
+    reference counts as an assignment of every field (how = 'assign-struct:<operand index>')"""
     out = {}
     for f in fields:
         out[f] = [x for x in cm.field_mutation_sites(F, adt, f, [b]) if x[2].startswith("assign")]
+    adt_def = F.adts.get(adt)
+    names = [fd["name"] for fd in adt_def["variants"][0]["fields"]] if adt_def and adt_def.get("variants") else []
+    live = b.live_blocks()
+    for bb, bl in enumerate(b.blocks):
+        if bb not in live:
+            continue
+        for st in bl["s"]:
+            if st[0] == "A" and "*" in st[1][1:] and not any(isinstance(p, list) and p[0] == "f" for p in st[1][1:]):
+                rv = st[2]
+                src = None
+                if rv[0] == "agg" and isinstance(rv[1], dict) and rv[1].get("adt") == adt:
+                    src = (bb, rv)
+                elif rv[0] == "use" and op_place(rv[1]) is not None and len(op_place(rv[1])) == 1 and b.ty(op_place(rv[1])[0]) == adt:
+                    for d in b.defs.get(op_place(rv[1])[0], []):
+                        if d[2] == "assign" and d[3][1][0] == "agg" and isinstance(d[3][1][1], dict) and d[3][1][1].get("adt") == adt:
+                            src = (d[0], d[3][1])
+                if src is not None:
+                    for f in fields:
+                        if f in names:
+                            out[f].append((b, bb, "assign-struct:%d:%d" % (src[0], names.index(f)), st[3]))
     return out
 
 
@@ -70,9 +92,9 @@ def _ts_compares(b):
 
 
 # ------------------------------------------------------------------------------------------------ add_member
-def add(ctx):
+def add(ctx, rule_id="C18.add", desc="add_member: older identity => Ignored and nothing written; newer identity => addr, ts, cluster_id all replaced; equal => nothing overwritten"):
     F = ctx.F
-    R = ctx.rule("C18.add", "K9", "add_member: older identity => Ignored and nothing written; newer identity => addr, ts, cluster_id all replaced; equal => nothing overwritten")
+    R = ctx.rule(rule_id, "K9", desc)
     b = F.get(M + "::add_member")
     if not R.anchor(b, "add_member", "fn Members::add_member"):
         return
@@ -109,6 +131,17 @@ def add(ctx):
     # values assigned come from the actor
     for f, sites in fw.items():
         for (bb_body, bb, how, line) in sites:
+            if how.startswith("assign-struct:"):
+                abb, idx = int(how.split(":")[1]), int(how.split(":")[2])
+                want = {"addr": "addr", "ts": "ts", "cluster_id": "cluster_id"}[f]
+                org = set()
+                for i, s in enumerate(b.blocks[abb]["s"]):
+                    if s[0] == "A" and s[2][0] == "agg" and isinstance(s[2][1], dict) and s[2][1].get("adt") == MS and idx < len(s[2][2]) and op_place(s[2][2][idx]) is not None:
+                        org = flow.origins(b, op_place(s[2][2][idx]), at=(abb, i))
+                ok = bool(org) and all(o.kind == "call" and o.call.name() == want for o in org)
+                R.require(ok, "value." + f, "%s:%d" % (b.file, line), "member.%s = actor.%s() (whole-value replacement)" % (f, want),
+                          fail_msg="member.%s is assigned from %s, not from actor.%s(): the member keeps part of its previous identity" % (f, cm.origin_summary(org), want))
+                continue
             for i, s in enumerate(b.blocks[bb]["s"]):
                 if s[0] == "A" and s[3] == line and any(isinstance(p, list) and p[0] == "f" and p[2] == f for p in s[1][1:]):
                     src = op_place(s[2][1]) if s[2][0] == "use" else None
